@@ -133,3 +133,8 @@ def register(M):
       "        return self.max_size_compressed(chi=chi, order=order, compress_late=compress_late, log=log)",
       "harmless: contraction_width_compressed forwards its arguments by keyword",
       ["tests/test_compressed.py"], harmless=True)
+    M("M_C20_y", ["C20"], "cotengra/experimental/path_compressed_branchbound.py",
+      "            if self.chi == \"auto\":\n                # the tracker has resolved this to a concrete bond dimension\n                self.chi = tracker0.chi\n",
+      "",
+      "revert of fix 24b738c: compressed_reconfigure with an objective that names no chi raises TypeError: compressed_reconfigure_tree",
+      ["tests/test_compressed.py"])
